@@ -6,10 +6,18 @@
 //
 //	C13.enum    exhaustive small grid, int elements, sizes next to MaxInt
 //	C13.rand    rapid: every element kind, named/unnamed slice types, several size classes
-//	C13.big     enumerated thresholds: n / size / number of pieces around every power of two
-//	C13.types   exhaustive small grid for every element kind (non-comparable, NaN, nil, wide, zero-size ...)
-//	C13.zst     zero-size element types: small grid + lengths around 2^31 .. MaxInt
-//	C13.nested  the functions called again from inside the callbacks, results of earlier calls checked after later calls
+//	C13.big     enumerated thresholds: n / size / number of pieces around every power of two; short slices inside arrays with > 1 MiB unused capacity
+//	C13.types   exhaustive small grid for every element kind (non-comparable, NaN, nil, 128 and 1040 bytes wide, odd sizes, zero-size ...)
+//	C13.zst     zero-size element types: small grid + lengths and unused capacities around 2^31 .. MaxInt
+//	C13.nested  the functions called again from inside the callbacks (also on a second live slice), results of earlier calls checked after later calls, input changed in place
+//	C13.par     2^8 .. 2^19 (thorough 2^25) elements under GOMAXPROCS 1, 2, 3, 5, 6, 7, default; results looked at the moment the call returns
+//	C13.gc      inputs that only the callee refers to + a garbage collection and same-sized allocations in the middle of the call
+//	C13.abort   calls aborted by a panic / runtime.Goexit of the callback, followed by independent calls
+//	C13.repeat  more than 2^16 repetitions of the same cheap calls, alternately on two live slices
+//	C13.wrap32  (thorough only) more than 2^32 repetitions of one call; single calls with more than 2^32 callbacks
+//
+// All units except C13.par (process-wide GOMAXPROCS) and C13.wrap32 (minutes per case) also run one case in eight as
+// four parallel independent copies (pbt Replicas): Run writes no package-level state.
 package c13
 
 import (
@@ -28,7 +36,7 @@ const rule = "case = (element kind, named or unnamed slice type, n, size>=1, off
 	"(Chunk, ChunkFunc, Windowed, WindowedFunc, Pairs, PairsFunc) are checked on each case against the " +
 	"definitions (piece count, piece lengths, piece i = s[i*size:...], window/pair i = s[i:i+size]; callbacks checked " +
 	"at the time of the call), input unchanged afterwards; a function is skipped (label skip:*) only when its " +
-	"result would have more than 2^20+16 pieces of a zero-size type; "
+	"result would have more than 2^16 pieces (Func variants: 2^17+16 callbacks) of a zero-size type; "
 
 const ntBase = "non-trivial = n mod size >= 2 or size > n (with n >= 1)"
 
@@ -129,7 +137,7 @@ var specBig = pbt.Register(&pbt.Spec[Case]{
 	Property: "C13", Name: "C13.big", Rule: "enumerated thresholds: for every T = 2^k+d, k in 5..13 (thorough 5..16), d in -2..2: " +
 		"(a) exactly T windows: size in {1,2,3,8,61}, n = T+size-1; (b) exactly T chunks: size in {1,2,3,7}, last chunk of length 1 and of length size; " +
 		"(c) n = T with size in {T/2-1,T/2,T/2+1,T-2,T-1,T,T+1,isqrt(T),isqrt(T)+1}; (d) size = T with n = q*T+r, q in 1..3, r in {0,1,2,T-1}; " +
-		"(f) n in {0,1,5,64,1000} x size in {1,3,n+1} inside a backing array with more than 1 MiB, 2 MiB, 4 MiB of unused capacity behind, in front of, or on both sides of the slice, for 8 element kinds; " +
+		"(f) n in {0,5,1000} x size in {1,3,n+1} inside a backing array with more than 1 MiB and 3 MiB of unused capacity behind, in front of, or on both sides of the slice, for 8 element kinds; " +
 		"(e) every n in 0..2200 (thorough 0..20000) with size 1, i.e. every number of windows, chunks and pairs up to that bound, with int and with struct{} elements, and for the first quarter of that range also sizes 2, 3 and 128-byte elements (sizes 1, 2); " +
 		"int elements throughout, (a) size 2 and (b) size 3 also with 128-byte, uint8 and zero-size elements; window contents are compared in full up to 2^20 element " +
 		"comparisons per call and at 64 spread positions per window beyond; " + rule + "non-trivial = n >= 30 or size >= 30 or more than 1 MiB unused capacity",
@@ -200,9 +208,12 @@ var specBig = pbt.Register(&pbt.Spec[Case]{
 			kind string
 			size int // element size in bytes
 		}{{"", 8}, {"u8", 1}, {"b3", 3}, {"string", 16}, {"nc", 40}, {"wide", 128}, {"xwide", 1040}, {"iface", 16}} {
-			for bi, unused := range []int{1<<20 + 4096, 2 << 20, 4<<20 + 24} {
+			for bi, unused := range []int{1<<20 + 4096, 3<<20 + 24} {
+				if bi > 0 && ks.size >= 16 && ks.size < 128 {
+					continue // elements that need an allocation each: the smaller array only
+				}
 				elems := unused/ks.size + 1
-				for ni, n := range []int{0, 1, 5, 64, 1000} {
+				for ni, n := range []int{0, 5, 1000} {
 					for _, size := range []int{1, 3, n + 1} {
 						front, spare := 0, elems
 						switch (ki + bi + ni) % 3 {
@@ -307,6 +318,9 @@ var specZst = pbt.Register(&pbt.Spec[Case]{
 			if n > math.MaxInt-8 {
 				front, spare = 0, 0
 			}
+			if shards > 1 && cnt%shards != shard {
+				return true
+			}
 			return yield(Case{Kind: kind, N: n, Size: size, Front: front, Spare: spare, Named: cnt%4 < 2})
 		}
 		for _, kind := range zstKinds {
@@ -331,6 +345,9 @@ var specZst = pbt.Register(&pbt.Spec[Case]{
 						front, spare = v/2, v-v/2
 					}
 					cnt++
+					if shards > 1 && cnt%shards != shard {
+						continue
+					}
 					if !yield(Case{Kind: zstKinds[cnt%len(zstKinds)], N: n, Size: size, Front: front, Spare: spare, Named: cnt%4 < 2}) {
 						return
 					}
@@ -401,7 +418,7 @@ var specZst = pbt.Register(&pbt.Spec[Case]{
 		}
 		return c
 	},
-	Run: runZst, Quick: 3000, Thorough: 30000, Replicas: 4, ReplicaEvery: 8,
+	Run: runZst, Quick: 1000, Thorough: 30000, Replicas: 4, ReplicaEvery: 8,
 })
 
 // ---------------------------------------------------------------- C13.nested
@@ -410,7 +427,8 @@ var specNested = pbt.Register(&pbt.Spec[Case]{
 	Property: "C13", Name: "C13.nested", Rule: "exhaustive grid n in 0..14 x size in 1..16 x inner size in 1..5 for element kinds int, non-comparable struct and struct{}: " +
 		"the callbacks of ChunkFunc, WindowedFunc and PairsFunc call all six functions again on the piece they were given (inner size), on the whole input and on an independent second live slice (the two slices are used alternately), every inner and outer " +
 		"result is checked against the definitions; then Chunk, Windowed and Pairs results of the input are kept while the same functions run on a second, different slice " +
-		"and their result containers are overwritten by the caller, and all kept results are checked afterwards (a result must not depend on later calls); " + ntBase,
+		"and their result containers are overwritten by the caller, and all kept results are checked afterwards (a result must not depend on later calls); finally the caller changes all elements of the " +
+		"input in place and all six functions are checked on it again with both sizes (nothing may be remembered per slice); " + ntBase,
 	Enum: func(shard, shards int, tier string, yield func(Case) bool) {
 		for _, kind := range []string{"", "nc", "z-struct"} {
 			for n := 0; n <= 14; n++ {
@@ -438,13 +456,13 @@ func runPar(c Case) pbt.Outcome {
 }
 
 var specPar = pbt.Register(&pbt.Spec[Case]{
-	Property: "C13", Name: "C13.par", Rule: "large inputs under different numbers of processors: for every T = 2^k+d, k in 8..20 (thorough 8..22, above 2^20 with uint8 elements), d in -1..1, and for each of " +
-		"GOMAXPROCS = 1, 2, 3, 5, 6, 7 and the machine's default, set for the duration of the case: (a) n = T+1, size 2 (T pairs, T windows, T/2+1 chunks) and (b) n = T, size 1 (T chunks, T windows, T-1 pairs), int elements; " +
+	Property: "C13", Name: "C13.par", Rule: "large inputs under different numbers of processors: for every T = 2^k+d, k in 8..19 (thorough 8..22, above 2^20 with uint8 elements), d in -1..1, and for each of " +
+		"GOMAXPROCS = 1, 2, 3, 5, 6, 7 and the machine's default (quick: one of them per case in rotation for k > 17, for d = -1, and for (b) with d = +1), set for the duration of the case: (a) n = T+1, size 2 (T pairs, T windows, T/2+1 chunks) and (b) n = T, size 1 (T chunks, T windows, T-1 pairs), int elements; " +
 		"with one of those processor counts in rotation: (a) with 128-byte, 1040-byte, uint8, [3]uint8, string and zero-size elements (128-byte up to k=16, 1040-byte up to k=13), " +
-		"(c) n = T with window/chunk size T/2 and isqrt(T), (d) exactly T chunks of size 3 and exactly T windows of size 7; every result is looked at the moment the function returns " +
+		"(c) n = T with window/chunk size T/2 and isqrt(T), (d) exactly T chunks of size 3 and exactly T windows of size 7; thorough also k in 23..25 with uint8 elements: T pairs, T/1024 chunks, 1000 windows; every result is looked at the moment the function returns " +
 		"(last piece first, then 64 pieces spread over the result backwards, then all pieces in order); " + rule + "non-trivial = n >= 200",
 	Enum: func(shard, shards int, tier string, yield func(Case) bool) {
-		maxK := 20
+		maxK := 19
 		if tier == "thorough" {
 			maxK = 22
 		}
@@ -461,6 +479,21 @@ var specPar = pbt.Register(&pbt.Spec[Case]{
 		}
 		rot := 0
 		next := func() int { rot++; return parProcs[rot%len(parProcs)] }
+		fullK := 17 // up to here every processor count; above, one processor count per case in rotation
+		if tier == "thorough" {
+			fullK = maxK
+		}
+		if tier == "thorough" {
+			// 2^23 .. 2^25 uint8 elements: T pairs; T/1024 chunks; 1000 windows
+			for k := 25; k > maxK; k-- {
+				for d := -1; d <= 1; d++ {
+					T := 1<<k + d
+					if !emit("u8", "p", T+1, 1, next()) || !emit("u8", "c", T, 1<<10, next()) || !emit("u8", "w", T, T-999, next()) {
+						return
+					}
+				}
+			}
+		}
 		for k := maxK; k >= 8; k-- { // biggest first: the shards finish together
 			for d := -1; d <= 1; d++ {
 				T := 1<<k + d
@@ -468,18 +501,28 @@ var specPar = pbt.Register(&pbt.Spec[Case]{
 				if k > 20 {
 					base = "u8"
 				}
-				for _, procs := range parProcs {
-					if !emit(base, "", T+1, 2, procs) || !emit(base, "", T, 1, procs) {
+				if k <= fullK && (d >= 0 || tier == "thorough") {
+					for _, procs := range parProcs {
+						if !emit(base, "", T+1, 2, procs) || (d == 0 || tier == "thorough") && !emit(base, "", T, 1, procs) {
+							return
+						}
+					}
+					if d != 0 && tier != "thorough" && !emit(base, "", T, 1, next()) {
 						return
 					}
+				} else if !emit(base, "", T+1, 2, next()) || !emit(base, "", T, 1, next()) {
+					return
 				}
 				for _, kind := range []string{"wide", "xwide", "u8", "b3", "string", "z-struct"} {
-					if kind == "wide" && k > 16 || kind == "xwide" && k > 13 || kind == "string" && k > 18 {
+					if kind == "wide" && k > 16 || kind == "xwide" && k > 13 || kind == "string" && k > 16 || kind == "z-struct" && k > 16 || k > fullK && kind != "u8" {
 						continue
 					}
 					if !emit(kind, "", T+1, 2, next()) {
 						return
 					}
+				}
+				if k > fullK && d != 0 {
+					continue
 				}
 				if !emit(base, "", T, T/2, next()) || !emit(base, "", T, isqrt(T), next()) || !emit(base, "c", 3*T, 3, next()) || !emit(base, "w", T+6, 7, next()) {
 					return
@@ -487,7 +530,7 @@ var specPar = pbt.Register(&pbt.Spec[Case]{
 			}
 		}
 	},
-	Run: runPar, Exhaustive: true,
+	Run: runPar, Exhaustive: true, Retries: 5,
 })
 
 // ---------------------------------------------------------------- C13.gc
@@ -495,26 +538,33 @@ var specPar = pbt.Register(&pbt.Spec[Case]{
 var realKinds = []struct {
 	kind  string
 	bytes int
-}{{"", 8}, {"string", 16}, {"f64", 8}, {"ptr", 8}, {"nc", 40}, {"wide", 128}, {"xwide", 1040}, {"u8", 1}, {"b3", 3}, {"i32", 4}, {"iface", 16}}
+}{{"", 8}, {"u8", 1}, {"f64", 8}, {"b3", 3}, {"i32", 4}, {"wide", 128}, {"xwide", 1040}, // without pointers first (see specGC)
+	{"nc", 40}, {"ptr", 8}, {"string", 16}, {"iface", 16}}
 
 var specGC = pbt.Register(&pbt.Spec[Case]{
 	Property: "C13", Name: "C13.gc", Rule: "inputs that only the callee refers to, and a garbage collection in the middle of the call: the input slice is built inside the call expression from a formula " +
 		"(the oracle recomputes the expected elements, nothing of the harness refers to the input's memory), callback number `at` of ChunkFunc / WindowedFunc / PairsFunc runs runtime.GC() and then allocates " +
 		"3..256 arrays of exactly the input's size filled with other elements; the results of Chunk / Windowed / Pairs on such inputs are looked at after a collection and the same allocations. " +
-		"Enumerated: 11 element kinds with real size x input size about 48 B, 1 KB, 8 KiB (small objects), 40 KiB, 256 KiB, 1 MiB (large objects) x (size, at) in {(1,0), (3,1), (n/2,0), (2,n/3)}; " +
-		"rapid: kind, input bytes log-uniform in 16 B..512 KiB, size 1..9 / 1..n+2 / n/2, at = 0, 1, or uniform, front 0..3, spare 0..4; " +
+		"Enumerated: 11 element kinds with real size x input size about 48 B, 1 KB, 8 KiB (small objects), 40 KiB, 256 KiB, 1 MiB (large objects; kinds with pointers: 48 B, 8 KiB, 256 KiB) x (size, at) in {(1,0), (3,1), (n/2,0), (2,n/3)}, one of the four phases (ChunkFunc, WindowedFunc, PairsFunc, the three slice-returning functions) per case in rotation; " +
+		"rapid: kind, one or two phases, input bytes log-uniform in 16 B..512 KiB, size 1..9 / 1..n+2 / n/2, at = 0, 1, or uniform, front 0..3, spare 0..4; " +
 		"non-trivial = at least one callback happens after the collection",
 	Enum: func(shard, shards int, tier string, yield func(Case) bool) {
 		cnt := 0
-		for _, b := range []int{48, 1000, 8 << 10, 40 << 10, 256 << 10, 1<<20 + 4096} {
-			for _, rk := range realKinds {
+		// element kinds without pointers first: if pieces ever show foreign memory, the first report is a clean
+		// comparison of plain values (with pointers in the elements the Go runtime itself may stop the process)
+		for ki, rk := range realKinds {
+			for bi, b := range []int{48, 1000, 8 << 10, 40 << 10, 256 << 10, 1<<20 + 4096} {
+				if ki >= 7 && bi%2 == 1 {
+					continue // elements with pointers: every other size
+				}
 				n := max(2, b/rk.bytes)
-				for _, sa := range [][2]int{{1, 0}, {3, 1}, {max(1, n/2), 0}, {2, n / 3}} {
+				for si, sa := range [][2]int{{1, 0}, {3, 1}, {max(1, n/2), 0}, {2, n / 3}} {
 					cnt++
 					if shards > 1 && cnt%shards != shard {
 						continue
 					}
-					if !yield(Case{Mode: "gc", Kind: rk.kind, N: n, Size: sa[0], At: sa[1], Front: cnt % 2, Spare: cnt % 3, Named: cnt%4 < 2}) {
+					fn := []string{"w", "c", "p", "R"}[(si+bi+ki)%4] // one phase (one collection) per case
+					if !yield(Case{Mode: "gc", Kind: rk.kind, Fn: fn, N: n, Size: sa[0], At: sa[1], Front: cnt % 2, Spare: cnt % 3, Named: cnt%4 < 2}) {
 						return
 					}
 				}
@@ -539,10 +589,10 @@ var specGC = pbt.Register(&pbt.Spec[Case]{
 		if rapid.IntRange(0, 2).Draw(t, "at-class") == 0 {
 			at = rapid.IntRange(0, n).Draw(t, "at")
 		}
-		return Case{Mode: "gc", Kind: rk.kind, N: n, Size: size, At: at, Named: rapid.Bool().Draw(t, "named"),
+		return Case{Mode: "gc", Kind: rk.kind, Fn: rapid.SampledFrom([]string{"w", "c", "p", "R", "wc", "pR"}).Draw(t, "phases"), N: n, Size: size, At: at, Named: rapid.Bool().Draw(t, "named"),
 			Front: rapid.IntRange(0, 3).Draw(t, "front"), Spare: rapid.IntRange(0, 4).Draw(t, "spare")}
 	},
-	Run: Run, Quick: 120, Thorough: 1500, Replicas: 4, ReplicaEvery: 8,
+	Run: Run, Quick: 40, Thorough: 400, Replicas: 4, ReplicaEvery: 8, Crashy: true, Retries: 5,
 })
 
 // ---------------------------------------------------------------- C13.abort
@@ -572,8 +622,9 @@ var specAbort = pbt.Register(&pbt.Spec[Case]{
 // ---------------------------------------------------------------- C13.repeat
 
 var specRepeat = pbt.Register(&pbt.Spec[Case]{
-	Property: "C13", Name: "C13.repeat", Rule: "the same cheap calls repeated 2^16+40 times (past every 8- and 16-bit counter of calls, callbacks or pieces), alternately on two live slices, all six functions " +
-		"checked in full every time, and the results of the very first calls checked again at the end: (n, size) in {(2,1), (5,2), (3,5)} for element kinds int, non-comparable struct and struct{}; " +
+	Property: "C13", Name: "C13.repeat", Rule: "the same cheap calls repeated 2^16+40 times (past every 8- and 16-bit counter of calls, callbacks or pieces), alternately on two live slices and with two sizes (size, size+1), all six functions " +
+		"checked in full every time; the results of the very first calls are checked again after half of the repetitions; in the second half the caller changes one element of the first slice in place before every " +
+		"fourth call on it (every call must work from the input as it is now); the pairs of the very first call are checked again at the end: (n, size) in {(2,1), (5,2), (3,5)} for element kinds int, non-comparable struct and struct{}; " +
 		"non-trivial = more than 2^16 repetitions",
 	Enum: func(shard, shards int, tier string, yield func(Case) bool) {
 		cnt := 0
@@ -595,17 +646,16 @@ var specRepeat = pbt.Register(&pbt.Spec[Case]{
 // ---------------------------------------------------------------- C13.wrap32 (thorough only)
 
 var specWrap32 = pbt.Register(&pbt.Spec[Case]{
-	Property: "C13", Name: "C13.wrap32", Rule: "past 2^32 (thorough tier only; one case per process): (a) 2^32+40 repetitions of one call on the same two-element int slice with size 1, each checked, for each of the " +
-		"six functions (uint8 elements for Pairs); (b) a single ChunkFunc / WindowedFunc / PairsFunc call that has to make 2^32+2 callbacks: []struct{} of length 2^32+2 or 2^32+3, size 1, and WindowedFunc with " +
+	Property: "C13", Name: "C13.wrap32", Rule: "past 2^32 (thorough tier only; one case per process): (a) 2^32+40 repetitions of one call on the same slice, each checked: ChunkFunc and WindowedFunc on a one-element int slice with size 1, " +
+		"PairsFunc on a two-element int slice, Pairs on a two-element []struct{} (its result needs no memory) - Chunk, Windowed and Pairs of real elements allocate a result per call, 2^32 of those take from four to " +
+		"ten minutes of CPU and are left out; (b) a single ChunkFunc / WindowedFunc / PairsFunc call that has to make 2^32+2 callbacks: []struct{} of length 2^32+2 or 2^32+3, size 1, and WindowedFunc with " +
 		"window size 2^61 on a slice of length 2^61+2^32+1; callbacks are counted and their lengths checked; non-trivial = more than 2^32 repetitions or pieces",
 	Enum: func(shard, shards int, tier string, yield func(Case) bool) {
 		cases := []Case{
-			{Mode: "wrap", Fn: "c", N: 2, Size: 1, Reps: 1<<32 + 40},
-			{Mode: "wrap", Fn: "w", N: 2, Size: 1, Reps: 1<<32 + 40},
+			{Mode: "wrap", Fn: "c", N: 1, Size: 1, Reps: 1<<32 + 40},
+			{Mode: "wrap", Fn: "w", N: 1, Size: 1, Reps: 1<<32 + 40},
 			{Mode: "wrap", Fn: "p", N: 2, Size: 1, Reps: 1<<32 + 40},
-			{Mode: "wrap", Fn: "C", N: 2, Size: 2, Reps: 1<<32 + 40},
-			{Mode: "wrap", Fn: "W", N: 2, Size: 2, Reps: 1<<32 + 40},
-			{Mode: "wrap", Fn: "P", N: 2, Size: 1, Reps: 1<<32 + 40, Kind: "u8"},
+			{Mode: "wrap", Fn: "P", N: 2, Size: 1, Reps: 1<<32 + 40, Kind: "z-struct"},
 			{Mode: "wrap", Fn: "c", N: 1<<32 + 2, Size: 1, Kind: "z-struct"},
 			{Mode: "wrap", Fn: "w", N: 1<<32 + 2, Size: 1, Kind: "z-arr0"},
 			{Mode: "wrap", Fn: "p", N: 1<<32 + 3, Size: 1, Kind: "z-struct"},
